@@ -14,6 +14,7 @@
         final(source).failed() == (old(source).failed() || res is Err),
 //@ beforeloop 1
     let ghost input = source.remaining();
+    proof { lemma_chunks(input); axiom_slices::<u8>(); }
 //@ loop 1
         invariant
             left <= len,
@@ -27,9 +28,8 @@
             source.remaining() == input.skip(len - left),
             source.failed() == old(source).failed(),
             input == old(source).remaining(),
+            chunk_facts(input), slice_facts::<u8>(),
         decreases left,
-//@ loopentry 1
-        proof { lemma_chunks(input); axiom_slices::<u8>(); }
 //@ fn append_chunk
 //@ spec
     ensures final(target)@ == old(target)@ + chunk@,
@@ -42,15 +42,19 @@ spec fn read_vec_post(before: Seq<u8>, after: Seq<u8>, len: usize, res: Result<V
     &&& (res is Err ==> (exists|k: int| 0 <= k <= before.len() && after == #[trigger] before.skip(k)))
 }
 
+// Facts about cutting a sequence into consecutive pieces (proved below); carried as a loop
+// invariant so that they are also available after the loop (robustness against restructured loops).
+spec fn chunk_facts(s: Seq<u8>) -> bool {
+    &&& forall|a: int, n: int| 0 <= a && 0 <= n && a + n <= s.len() ==>
+            #[trigger] (s.subrange(0, a) + s.skip(a).subrange(0, n)) == s.subrange(0, a + n)
+    &&& forall|a: int, n: int| 0 <= a && 0 <= n && a + n <= s.len() ==>
+            #[trigger] s.skip(a).skip(n) == s.skip(a + n)
+    &&& s.skip(0) == s
+    &&& s.subrange(0, 0) == Seq::<u8>::empty()
+    &&& forall|a: int| 0 <= a <= s.len() ==> (#[trigger] s.skip(a)).len() == s.len() - a
+}
 proof fn lemma_chunks(s: Seq<u8>)
-    ensures
-        forall|a: int, n: int| 0 <= a && 0 <= n && a + n <= s.len() ==>
-            #[trigger] (s.subrange(0, a) + s.skip(a).subrange(0, n)) == s.subrange(0, a + n),
-        forall|a: int, n: int| 0 <= a && 0 <= n && a + n <= s.len() ==>
-            #[trigger] s.skip(a).skip(n) == s.skip(a + n),
-        s.skip(0) == s,
-        s.subrange(0, 0) == Seq::<u8>::empty(),
-        forall|a: int| 0 <= a <= s.len() ==> (#[trigger] s.skip(a)).len() == s.len() - a,
+    ensures chunk_facts(s),
 {
     assert forall|a: int, n: int| 0 <= a && 0 <= n && a + n <= s.len() implies
             #[trigger] (s.subrange(0, a) + s.skip(a).subrange(0, n)) == s.subrange(0, a + n) by {
